@@ -141,6 +141,36 @@ func genC10(t *rapid.T) Case {
 	n := rapid.IntRange(2, 4).Draw(t, "nprocs")
 	c.Progs = drawProgs(t, n, 5, []OpWeights{readerOps, writerOps}, hs, c.Cfg.Exact)
 	c.Sched = drawSched(t, n)
+	if rapid.IntRange(0, 2).Draw(t, "churnFamily") == 0 {
+		// family: a handle that keeps reloading (every Add of it is stale) while one writer
+		// alternates partial compactions and additions, so that the reloader is several
+		// versions behind and the list it read names tables that disappear before it opens them
+		c.InitAuto = false
+		c.Init = nil
+		for i := 0; i < rapid.IntRange(3, 5).Draw(t, "ninitC"); i++ {
+			tx := drawTx(t, "init/c"+strconv.Itoa(i), hs, c.Cfg.Exact)
+			c.Init = append(c.Init, InitOp{Tx: &tx})
+		}
+		reader := Prog{Ops: []POp{{Kind: KOpen}}}
+		for i := 0; i < rapid.IntRange(1, 4).Draw(t, "nreaderAdds"); i++ {
+			reader.Ops = append(reader.Ops, drawOp(t, OpWeights{KAdd: 4, KRead: 1, KAutoCompact: 1}, "p0/c"+strconv.Itoa(i), hs, c.Cfg.Exact))
+		}
+		writer := Prog{}
+		for i := 0; i < rapid.IntRange(3, 7).Draw(t, "nwriterOps"); i++ {
+			writer.Ops = append(writer.Ops, drawOp(t, OpWeights{KCompactRange: 5, KAdd: 4, KCompactAll: 1}, "p1/c"+strconv.Itoa(i), hs, c.Cfg.Exact))
+		}
+		c.Progs = []Prog{reader, writer}
+		n = 2
+		c.Sched = SchedSpec{Kind: "segments"}
+		for i := 0; i < rapid.IntRange(3, 9).Draw(t, "nsegsC"); i++ {
+			steps := rapid.IntRange(0, 12).Draw(t, "segStepsC")
+			if i%2 == 1 {
+				steps = rapid.IntRange(5, 70).Draw(t, "segStepsW")
+			}
+			c.Sched.Segs = append(c.Sched.Segs, [2]int{i % 2, steps})
+		}
+		return c
+	}
 	if c.Sched.Kind == "windowed" && rapid.Bool().Draw(t, "readerFirst") {
 		// place the writers inside the reader's open: the reader is pre-empted early
 		for i, id := range c.Sched.Order {
